@@ -82,6 +82,9 @@ impl SortingInference<'_> {
                     None
                 }
             })
+            // several computes can alias the same column (`derive {b = a, c = a}`):
+            // keep the one declared first, independent of hash order
+            .sorted_by_key(|(_, alias)| std::cmp::Reverse(*alias))
             .collect::<HashMap<_, _>>();
         log::debug!(".. column aliases: {column_aliases:?}");
 
